@@ -155,11 +155,17 @@ def run_prop(prop, tier, rnd, out):
     cases += prop.generate(tier, rnd)
     out.extra["corpus_cases"] = ncorpus
     known = core.load_known_findings()
+    t_start = time.time()
     B = 500
     for i in range(0, len(cases), B):
         if len(out.spec_failures) >= 40:
             # the property is already refuted on many inputs: the rest adds nothing
             out.extra["stopped_after_failures"] = i
+            break
+        if len(out.mismatches) >= 2000 or (time.time() - t_start > 1500 and (out.mismatches or out.spec_failures)):
+            # the correspondence is broken on thousands of inputs (or the run is already long and
+            # has something to report): stop looking for a failing input
+            out.extra["stopped_after_mismatches"] = i
             break
         chunk = cases[i:i + B]
         results = prop.evaluate(chunk)
